@@ -28,6 +28,7 @@ COMPOSE_MIN_THEOREMS = 11
 EXTRA_MODULES = [('MpVerif.C01.PropsCompose', 'MpVerif/C01/PropsCompose.lean', COMPOSE_MIN_THEOREMS),
                  ('MpVerif.C01.PropsCtxGen', 'MpVerif/C01/PropsCtxGen.lean', 11),
                  ('MpVerif.C01.PropsObjective', 'MpVerif/C01/PropsObjective.lean', 9),
+                 ('MpVerif.C01.PropsGenTie', 'MpVerif/C01/PropsGenTie.lean', 27),
                  # statement audit (round 4): non-vacuity instances only, no C01_ theorems of its own
                  ('MpVerif.C01.PropsAudit', 'MpVerif/C01/PropsAudit.lean', 0)]
 
@@ -1176,8 +1177,17 @@ def run_gadgets(ck, n_cases=None, proof=True):
                              os.path.join(LEAN, 'MpVerif', 'Gen', 'Context.lean'), os.path.join(BUILD, 'tr')], timeout=300)
         ck.log((gout.strip() or gerr.strip())[-300:])
         res['translator_ok'] = rc == 0
+        # round 4: clang-AST translation of mp::Context; PropagateResult overload table; digests of mirrored converter bodies
+        for script, args in (('gen_context_ast.py', [REPO, os.path.join(LEAN, 'MpVerif', 'Gen', 'C01Context.lean'), os.path.join(BUILD, 'tr')]),
+                             ('gen_propdown.py', [REPO, os.path.join(LEAN, 'MpVerif', 'Gen')]),
+                             ('gen_rangedec.py', [REPO, os.path.join(LEAN, 'MpVerif', 'Gen', 'C01Decisions.lean')])):
+            rc2, o2, e2 = sh([sys.executable, os.path.join(VERIF, 'translators', script)] + args, timeout=300)
+            ck.log((o2.strip() or e2.strip())[-300:])
+            if rc2 != 0:
+                res['translator_ok'] = False
+                gout, gerr = gout + ' | ' + script + ': ' + o2, gerr + e2
         ok, failing = ck.proof_stage('MpVerif.C01.Props', 'MpVerif/C01/Props.lean', 'C01_',
-                                     ['MpVerif/C01/*.lean', 'MpVerif/Gen/Context.lean'], expect_min=PROP_MIN_THEOREMS)
+                                     ['MpVerif/C01/*.lean', 'MpVerif/Gen/Context.lean', 'MpVerif/Gen/C01*.lean'], expect_min=PROP_MIN_THEOREMS)
         if not res.get('translator_ok', True):
             ok = False
             failing = failing + ['translator gen_context.py: ' + (gout + gerr).strip()[-200:]]
@@ -1210,7 +1220,7 @@ def run_gadgets(ck, n_cases=None, proof=True):
             failing = failing + fail2
         res['proof_ok'], res['failing'] = ok, failing
         if ck.tier == 'thorough' and ok:
-            badm = ck.leanchecker(['MpVerif.C01.Props', 'MpVerif.C01.PropsCompose', 'MpVerif.C01.PropsCtxGen', 'MpVerif.C01.PropsObjective'])
+            badm = ck.leanchecker(['MpVerif.C01.Props', 'MpVerif.C01.PropsCompose', 'MpVerif.C01.PropsCtxGen', 'MpVerif.C01.PropsObjective', 'MpVerif.C01.PropsGenTie'])
             if badm:
                 res['proof_ok'] = False
                 res['failing'] += ['leanchecker rejected %s' % x for x in badm]
